@@ -12,8 +12,9 @@ fn main() {
     let mut agg: std::collections::BTreeMap<String, u64> = Default::default();
     let t0 = std::time::Instant::now();
     for run in from..to {
-        let (cfg, steps) = s.generate(1, run, Tier::Quick, "C37");
-        let mut obs = Obs::new("C37", Arc::new(Default::default()), true);
+        let focus = std::env::var("FOCUS").unwrap_or_else(|_| "C37".into());
+        let (cfg, steps) = s.generate(1, run, Tier::Quick, &focus);
+        let mut obs = Obs::new(&focus, Arc::new(Default::default()), true);
         s.execute(&cfg, &steps, &mut obs);
         if verbose {
             eprintln!("cfg {:?}", cfg);
